@@ -20,13 +20,13 @@ import (
 // ---------------------------------------------------------------------------
 // scripted, event-recording randomness source
 
-type rdEvent struct {
+type zvRdEvent struct {
 	Req int    `json:"req"`
 	N   int    `json:"n"`
 	Err string `json:"err,omitempty"`
 }
 
-type scriptReader struct {
+type zvScriptReader struct {
 	data         []byte
 	off          int
 	chunk        int   // max bytes handed out per Read (0 = as many as asked)
@@ -40,14 +40,16 @@ type scriptReader struct {
 	stallAt      int   // absolute byte offset at which the source stalls: stallCount reads return (0, nil) there (-1 = never)
 	stallCount   int
 	calls        int
-	events       []rdEvent
+	events       []zvRdEvent
 	failed       bool
 	readsAfter   int // Read calls made after the failure was reported
 }
 
-func newScript(data []byte) *scriptReader { return &scriptReader{data: data, failAt: -1, stallAt: -1} }
+func zvNewScript(data []byte) *zvScriptReader {
+	return &zvScriptReader{data: data, failAt: -1, stallAt: -1}
+}
 
-func (s *scriptReader) Read(p []byte) (int, error) {
+func (s *zvScriptReader) Read(p []byte) (int, error) {
 	s.calls++
 	if s.failed {
 		s.readsAfter++
@@ -55,18 +57,18 @@ func (s *scriptReader) Read(p []byte) (int, error) {
 		if e == nil {
 			e = io.EOF
 		}
-		s.events = append(s.events, rdEvent{Req: len(p), N: 0, Err: e.Error()})
+		s.events = append(s.events, zvRdEvent{Req: len(p), N: 0, Err: e.Error()})
 		return 0, e
 	}
 	if s.stallAt >= 0 && s.off == s.stallAt && s.stallCount > 0 && len(p) > 0 {
 		s.stallCount--
 		if len(s.events) < 64 {
-			s.events = append(s.events, rdEvent{Req: len(p), N: 0})
+			s.events = append(s.events, zvRdEvent{Req: len(p), N: 0})
 		}
 		return 0, nil
 	}
 	if s.zeroEvery > 0 && s.calls%s.zeroEvery == 0 && len(p) > 0 {
-		s.events = append(s.events, rdEvent{Req: len(p), N: 0})
+		s.events = append(s.events, zvRdEvent{Req: len(p), N: 0})
 		return 0, nil
 	}
 	limit := len(s.data)
@@ -89,7 +91,7 @@ func (s *scriptReader) Read(p []byte) (int, error) {
 			e = io.EOF
 		}
 		if n > 0 && !s.failWithData && !(s.errWithFull && n == len(p)) {
-			s.events = append(s.events, rdEvent{Req: len(p), N: n})
+			s.events = append(s.events, zvRdEvent{Req: len(p), N: n})
 			return n, nil // error comes with the next call
 		}
 		if s.transient && s.failAt >= 0 && s.failAt < len(s.data) {
@@ -102,22 +104,22 @@ func (s *scriptReader) Read(p []byte) (int, error) {
 		} else {
 			s.failed = true
 		}
-		s.events = append(s.events, rdEvent{Req: len(p), N: n, Err: e.Error()})
+		s.events = append(s.events, zvRdEvent{Req: len(p), N: n, Err: e.Error()})
 		return n, e
 	}
-	s.events = append(s.events, rdEvent{Req: len(p), N: n})
+	s.events = append(s.events, zvRdEvent{Req: len(p), N: n})
 	return n, nil
 }
 
 // byteScript is the same source with the optional io.ByteReader interface as well (bufio.Reader,
 // bytes.Buffer, strings.Reader all have it): a library that type-switches on its source must
 // treat every failure the same way on that path.
-type byteScript struct{ *scriptReader }
+type zvByteScript struct{ *zvScriptReader }
 
-func (b byteScript) ReadByte() (byte, error) {
+func (b zvByteScript) ReadByte() (byte, error) {
 	var one [1]byte
 	for i := 0; i < 8; i++ {
-		n, err := b.scriptReader.Read(one[:])
+		n, err := b.zvScriptReader.Read(one[:])
 		if n == 1 {
 			// like bufio: a byte delivered together with an error is returned first, the error on the next call
 			return one[0], nil
@@ -130,12 +132,12 @@ func (b byteScript) ReadByte() (byte, error) {
 }
 
 // sourceKinds wraps a scripted source the ways callers do.
-var sourceKindNames = []string{"plain", "bytereader", "bufio", "bufio16", "limited", "multi"}
+var zvSourceKindNames = []string{"plain", "bytereader", "bufio", "bufio16", "limited", "multi"}
 
-func wrapSource(s *scriptReader, kind int) io.Reader {
+func zvWrapSource(s *zvScriptReader, kind int) io.Reader {
 	switch kind {
 	case 1:
-		return byteScript{s}
+		return zvByteScript{s}
 	case 2:
 		return bufio.NewReader(s)
 	case 3:
@@ -150,7 +152,7 @@ func wrapSource(s *scriptReader, kind int) io.Reader {
 
 // crossesUnit reports whether some Read asked for bytes beyond the current
 // 32-byte unit (the standard draws k in 32-byte units).
-func (s *scriptReader) crossesUnit() bool {
+func (s *zvScriptReader) crossesUnit() bool {
 	off := 0
 	for _, e := range s.events {
 		if e.Req > 32-(off%32) {
@@ -161,70 +163,70 @@ func (s *scriptReader) crossesUnit() bool {
 	return false
 }
 
-var errCustom = errors.New("verif: injected entropy failure")
+var zvErrCustom = errors.New("verif: injected entropy failure")
 
 // errTemporary is an error VALUE of the kind network and device sources return: it classifies itself
 // as temporary / timeout. The statement makes no exception for it: any reported error ends the call.
-type errTemporary struct{ timeout bool }
+type zvErrTemporary struct{ timeout bool }
 
-func (e errTemporary) Error() string   { return "verif: resource temporarily unavailable" }
-func (e errTemporary) Temporary() bool { return true }
-func (e errTemporary) Timeout() bool   { return e.timeout }
+func (e zvErrTemporary) Error() string   { return "verif: resource temporarily unavailable" }
+func (e zvErrTemporary) Temporary() bool { return true }
+func (e zvErrTemporary) Timeout() bool   { return e.timeout }
 
 // ---------------------------------------------------------------------------
 // key and scalar helpers
 
 var (
-	nI   = ref.SM2N
-	nm1  = new(big.Int).Sub(ref.SM2N, big.NewInt(1))
-	nm2  = new(big.Int).Sub(ref.SM2N, big.NewInt(2))
-	nm3  = new(big.Int).Sub(ref.SM2N, big.NewInt(3))
-	two  = big.NewInt(2)
-	b256 = new(big.Int).Lsh(big.NewInt(1), 256)
+	zvNI   = ref.SM2N
+	zvNm1  = new(big.Int).Sub(ref.SM2N, big.NewInt(1))
+	zvNm2  = new(big.Int).Sub(ref.SM2N, big.NewInt(2))
+	zvNm3  = new(big.Int).Sub(ref.SM2N, big.NewInt(3))
+	zvTwo  = big.NewInt(2)
+	zvB256 = new(big.Int).Lsh(big.NewInt(1), 256)
 )
 
-func bi(x int64) *big.Int { return big.NewInt(x) }
+func zvBi(x int64) *big.Int { return big.NewInt(x) }
 
-func randScalar(rng *hk.RNG) *big.Int {
+func zvRandScalar(rng *hk.RNG) *big.Int {
 	for {
 		k := new(big.Int).SetBytes(rng.Bytes(32))
-		if k.Sign() > 0 && k.Cmp(nm2) <= 0 {
+		if k.Sign() > 0 && k.Cmp(zvNm2) <= 0 {
 			return k
 		}
 	}
 }
 
 // specialKeys are boundary private keys that are valid.
-func specialKeys() []*big.Int {
-	return []*big.Int{bi(1), bi(2), bi(3), bi(255), bi(256), new(big.Int).Set(nm2), new(big.Int).Set(nm3),
-		new(big.Int).Lsh(bi(1), 255), new(big.Int).Sub(new(big.Int).Lsh(bi(1), 248), bi(1)),
-		new(big.Int).Lsh(bi(1), 248), new(big.Int).Lsh(bi(1), 128), new(big.Int).Sub(new(big.Int).Lsh(bi(1), 64), bi(1))}
+func zvSpecialKeys() []*big.Int {
+	return []*big.Int{zvBi(1), zvBi(2), zvBi(3), zvBi(255), zvBi(256), new(big.Int).Set(zvNm2), new(big.Int).Set(zvNm3),
+		new(big.Int).Lsh(zvBi(1), 255), new(big.Int).Sub(new(big.Int).Lsh(zvBi(1), 248), zvBi(1)),
+		new(big.Int).Lsh(zvBi(1), 248), new(big.Int).Lsh(zvBi(1), 128), new(big.Int).Sub(new(big.Int).Lsh(zvBi(1), 64), zvBi(1))}
 }
 
-type pubCache struct {
+type zvPubCache struct {
 	mu sync.Mutex
 	m  map[string]ref.Pt
 }
 
-var pubs = pubCache{m: map[string]ref.Pt{}}
+var zvPubs = zvPubCache{m: map[string]ref.Pt{}}
 
 // refPub is [d]G by the reference model (cached).
-func refPub(d *big.Int) ref.Pt {
+func zvRefPub(d *big.Int) ref.Pt {
 	k := d.Text(16)
-	pubs.mu.Lock()
-	p, ok := pubs.m[k]
-	pubs.mu.Unlock()
+	zvPubs.mu.Lock()
+	p, ok := zvPubs.m[k]
+	zvPubs.mu.Unlock()
 	if ok {
 		return p
 	}
 	p = ref.BaseMulFast(d)
-	pubs.mu.Lock()
-	pubs.m[k] = p
-	pubs.mu.Unlock()
+	zvPubs.mu.Lock()
+	zvPubs.m[k] = p
+	zvPubs.mu.Unlock()
 	return p
 }
 
-func leadingZeros(b []byte) int {
+func zvLeadingZeros(b []byte) int {
 	n := 0
 	for _, c := range b {
 		if c != 0 {
@@ -235,20 +237,20 @@ func leadingZeros(b []byte) int {
 	return n
 }
 
-func lzClass(v *big.Int) int { return 32 - (v.BitLen()+7)/8 }
+func zvLzClass(v *big.Int) int { return 32 - (v.BitLen()+7)/8 }
 
 // solveDigest returns e such that signing with (d,k) yields the requested
 // target: kind "r", "s" or "t" with the given value. ok=false if degenerate.
-func solveDigest(d, k *big.Int, kind string, target *big.Int) (e []byte, ok bool) {
+func zvSolveDigest(d, k *big.Int, kind string, target *big.Int) (e []byte, ok bool) {
 	x1 := ref.BaseMulFast(k).X
-	D := ref.InvN(new(big.Int).Add(d, bi(1)))
+	D := ref.InvN(new(big.Int).Add(d, zvBi(1)))
 	var r *big.Int
 	switch kind {
 	case "r":
 		r = ref.ModN(target)
 	case "s":
 		// s = D k + r (D-1)  =>  r = (s - D k) (D-1)^-1
-		dm1 := ref.ModN(new(big.Int).Sub(D, bi(1)))
+		dm1 := ref.ModN(new(big.Int).Sub(D, zvBi(1)))
 		if dm1.Sign() == 0 {
 			return nil, false
 		}
@@ -261,7 +263,7 @@ func solveDigest(d, k *big.Int, kind string, target *big.Int) (e []byte, ok bool
 		r = ref.ModN(new(big.Int).Sub(target, k))
 	case "t":
 		// t = D (k + r)  =>  r = t (1+d) - k
-		r = new(big.Int).Mul(target, new(big.Int).Add(d, bi(1)))
+		r = new(big.Int).Mul(target, new(big.Int).Add(d, zvBi(1)))
 		r.Sub(r, k)
 		r = ref.ModN(r)
 	default:
@@ -271,35 +273,35 @@ func solveDigest(d, k *big.Int, kind string, target *big.Int) (e []byte, ok bool
 	return ref.B32(ee), true
 }
 
-func hexOrNil(b []byte) string {
+func zvHexOrNil(b []byte) string {
 	if b == nil {
 		return "<nil>"
 	}
 	return hk.Hex(b)
 }
 
-func errStr(e error) string {
+func zvErrStr(e error) string {
 	if e == nil {
 		return "<nil>"
 	}
 	return e.Error()
 }
 
-func caseID(prefix string, i int) string { return fmt.Sprintf("%s/%d", prefix, i) }
+func zvCaseID(prefix string, i int) string { return fmt.Sprintf("%s/%d", prefix, i) }
 
 // hostilePrelude drives the rest of the public API with unusual but legal inputs BEFORE a monitor
 // starts judging its own property, in the same process: crafted verifications ((r+s) mod n tiny, s
 // tiny, keys G / -G / same x other y), signing with short key encodings and with keys that are tails
 // of one another, ZA with odd ids. Results are not judged here (their own properties do that); the
 // point is that state left behind by one entry point must not change what another one returns.
-func hostilePrelude(rng *hk.RNG) {
+func zvHostilePrelude(rng *hk.RNG) {
 	defer func() { recover() }()
-	Ps := []ref.Pt{ref.G(), ref.G().Neg(), refPub(bi(2)), refPub(randScalar(rng))}
+	Ps := []ref.Pt{ref.G(), ref.G().Neg(), zvRefPub(zvBi(2)), zvRefPub(zvRandScalar(rng))}
 	Ps = append(Ps, Ps[3].Neg())
 	for _, P := range Ps {
 		px, py := ref.B32(P.X), ref.B32(P.Y)
-		for _, tv := range []*big.Int{bi(1), bi(2), bi(5000), bi(8191), new(big.Int).Lsh(bi(1), 13), randScalar(rng)} {
-			for _, sv := range []*big.Int{bi(1), new(big.Int).Lsh(bi(1), 17), new(big.Int).Lsh(bi(1), 200), randScalar(rng)} {
+		for _, tv := range []*big.Int{zvBi(1), zvBi(2), zvBi(5000), zvBi(8191), new(big.Int).Lsh(zvBi(1), 13), zvRandScalar(rng)} {
+			for _, sv := range []*big.Int{zvBi(1), new(big.Int).Lsh(zvBi(1), 17), new(big.Int).Lsh(zvBi(1), 200), zvRandScalar(rng)} {
 				rr := ref.ModN(new(big.Int).Sub(tv, sv))
 				if rr.Sign() == 0 {
 					continue
@@ -307,17 +309,17 @@ func hostilePrelude(rng *hk.RNG) {
 				VerifyHashed(px, py, rng.Bytes(32), ref.B32(rr), ref.B32(sv))
 			}
 		}
-		Verify([]byte("1234567812345678"), px, py, []byte("m"), ref.B32(bi(7)), ref.B32(bi(9)))
+		Verify([]byte("1234567812345678"), px, py, []byte("m"), ref.B32(zvBi(7)), ref.B32(zvBi(9)))
 		CheckOnCurve(px, py)
 		ZA(rng.Bytes(rng.Intn(70)), px, py)
 	}
-	a := ref.B32(randScalar(rng))
+	a := ref.B32(zvRandScalar(rng))
 	a[0] |= 1
 	for _, k := range [][]byte{a, a[1:], a[5:], append([]byte{0}, a[1:]...), a} {
-		SignHashed(newScript(rng.Bytes(96)), k, rng.Bytes(32))
+		SignHashed(zvNewScript(rng.Bytes(96)), k, rng.Bytes(32))
 		DerivePublic(a)
 	}
-	GenerateKey(newScript(append(make([]byte, 32), rng.Bytes(64)...)))
+	GenerateKey(zvNewScript(append(make([]byte, 32), rng.Bytes(64)...)))
 }
 
 // rareNonceCases pairs every fixture nonce k whose x1 = x([k]G) lies in a 2^-31 class (see
@@ -325,43 +327,43 @@ func hostilePrelude(rng *hk.RNG) {
 // for class "hi" e + x1 >= 2n needs e close to 2^256 (two subtractions of n), with the exact
 // boundaries e = 2n - x1 - 1 (r = n-1), 2n - x1 (r = 0: retry) and 2n - x1 + 1 (r = 1); for class
 // "lo" r = e + x1 keeps leading zero bytes for tiny e, and e = n - x1 gives r = 0.
-type rareCase struct {
+type zvRareCase struct {
 	k     *big.Int
 	e     []byte
 	label string
 }
 
-func rareNonceCases(rng *hk.RNG) ([]rareCase, error) {
+func zvRareNonceCases(rng *hk.RNG) ([]zvRareCase, error) {
 	rn, err := ref.LoadRareNonces()
 	if err != nil {
 		return nil, err
 	}
-	var out []rareCase
-	twoN := new(big.Int).Lsh(nI, 1)
+	var out []zvRareCase
+	twoN := new(big.Int).Lsh(zvNI, 1)
 	for _, f := range rn {
 		k, _ := new(big.Int).SetString(f.K, 16)
 		x1, _ := new(big.Int).SetString(f.X, 16)
 		var es []*big.Int
 		if f.Class == "hi" {
 			edge := new(big.Int).Sub(twoN, x1) // smallest e with e + x1 >= 2n
-			es = append(es, new(big.Int).Sub(b256, bi(1)), new(big.Int).Sub(b256, bi(2)), new(big.Int).Sub(edge, bi(1)), edge, new(big.Int).Add(edge, bi(1)),
-				new(big.Int).SetBytes(append([]byte{0xff, 0xff, 0xff, 0xff}, rng.Bytes(28)...)), new(big.Int).Set(nI), new(big.Int).Set(nm1), bi(0), new(big.Int).SetBytes(rng.Bytes(32)))
+			es = append(es, new(big.Int).Sub(zvB256, zvBi(1)), new(big.Int).Sub(zvB256, zvBi(2)), new(big.Int).Sub(edge, zvBi(1)), edge, new(big.Int).Add(edge, zvBi(1)),
+				new(big.Int).SetBytes(append([]byte{0xff, 0xff, 0xff, 0xff}, rng.Bytes(28)...)), new(big.Int).Set(zvNI), new(big.Int).Set(zvNm1), zvBi(0), new(big.Int).SetBytes(rng.Bytes(32)))
 			for j := 0; j < 4; j++ {
 				// uniformly between the edge and 2^256-1
-				span := new(big.Int).Sub(b256, edge)
+				span := new(big.Int).Sub(zvB256, edge)
 				v := new(big.Int).Mod(new(big.Int).SetBytes(rng.Bytes(40)), span)
 				es = append(es, v.Add(v, edge))
 			}
 		} else {
-			edge := new(big.Int).Sub(nI, x1) // e + x1 = n
-			es = append(es, bi(0), bi(1), bi(255), new(big.Int).Sub(edge, bi(1)), edge, new(big.Int).Add(edge, bi(1)), new(big.Int).Sub(b256, bi(1)), new(big.Int).SetBytes(rng.Bytes(32)),
+			edge := new(big.Int).Sub(zvNI, x1) // e + x1 = n
+			es = append(es, zvBi(0), zvBi(1), zvBi(255), new(big.Int).Sub(edge, zvBi(1)), edge, new(big.Int).Add(edge, zvBi(1)), new(big.Int).Sub(zvB256, zvBi(1)), new(big.Int).SetBytes(rng.Bytes(32)),
 				new(big.Int).SetBytes(rng.Bytes(3)), new(big.Int).SetBytes(rng.Bytes(27)))
 		}
 		for _, e := range es {
-			if e.Sign() < 0 || e.Cmp(b256) >= 0 {
+			if e.Sign() < 0 || e.Cmp(zvB256) >= 0 {
 				continue
 			}
-			out = append(out, rareCase{k: k, e: ref.B32(e), label: "rare-nonce-" + f.Class})
+			out = append(out, zvRareCase{k: k, e: ref.B32(e), label: "rare-nonce-" + f.Class})
 		}
 	}
 	return out, nil
@@ -371,9 +373,9 @@ func rareNonceCases(rng *hk.RNG) ([]rareCase, error) {
 // scalar field (v * 2^256 mod n, four 64-bit limbs) is made of carry-critical limbs: 0, 1, 2^32,
 // 2^63, 2^64-1, high-half-only words ... Values of r+k, s, d+1 that are "nice" as integers have random
 // looking internal limbs; these are the ones that are nice inside.
-func montgomeryPatternScalars(rng *hk.RNG, count int) []*big.Int {
+func zvMontgomeryPatternScalars(rng *hk.RNG, count int) []*big.Int {
 	alpha := []uint64{0, 1, 1 << 32, 1 << 63, 1<<64 - 1, 0xFFFFFFFF00000000, 0xFFFFFFFE00000000, 1<<32 - 1, 0x8000000000000000, 0x0000000100000000, 0x7203DF6B21C6052B, 0x53BBF40939D54123}
-	rinv := new(big.Int).ModInverse(b256, nI)
+	rinv := new(big.Int).ModInverse(zvB256, zvNI)
 	var out []*big.Int
 	mk := func(l [4]uint64) {
 		m := new(big.Int)
@@ -381,7 +383,7 @@ func montgomeryPatternScalars(rng *hk.RNG, count int) []*big.Int {
 			m.Lsh(m, 64)
 			m.Or(m, new(big.Int).SetUint64(l[i]))
 		}
-		if m.Cmp(nI) >= 0 || m.Sign() == 0 {
+		if m.Cmp(zvNI) >= 0 || m.Sign() == 0 {
 			return
 		}
 		out = append(out, ref.ModN(new(big.Int).Mul(m, rinv)))
@@ -408,13 +410,13 @@ func montgomeryPatternScalars(rng *hk.RNG, count int) []*big.Int {
 
 // zeroRunReader delivers `zeros` zero bytes (each 32-byte unit is the rejected candidate 0) and then tail,
 // without holding the run in memory: runs of 2^24 and more rejected candidates.
-type zeroRunReader struct {
+type zvZeroRunReader struct {
 	zeros int64
 	tail  []byte
 	read  int64
 }
 
-func (z *zeroRunReader) Read(p []byte) (int, error) {
+func (z *zvZeroRunReader) Read(p []byte) (int, error) {
 	n := 0
 	if z.zeros > 0 {
 		n = len(p)
@@ -436,42 +438,42 @@ func (z *zeroRunReader) Read(p []byte) (int, error) {
 	return n, nil
 }
 
-var globalRandMu sync.Mutex
+var zvGlobalRandMu sync.Mutex
 
 // withGlobalRand replaces the process-wide crypto/rand.Reader by rd for the duration of f and hands f that
 // very global object: a library may recognise it by identity and treat it differently from other sources.
 // Sequential sections only.
-func withGlobalRand(rd io.Reader, f func(src io.Reader)) {
-	globalRandMu.Lock()
+func zvWithGlobalRand(rd io.Reader, f func(src io.Reader)) {
+	zvGlobalRandMu.Lock()
 	saved := crand.Reader
 	crand.Reader = rd
-	defer func() { crand.Reader = saved; globalRandMu.Unlock() }()
+	defer func() { crand.Reader = saved; zvGlobalRandMu.Unlock() }()
 	f(crand.Reader)
 }
 
 // stackHungryReader uses a lot of stack inside Read (recursion), so that the CALLER's stack is moved while the
 // library waits for its randomness - the moment a raw address of the candidate buffer goes stale.
-type stackHungryReader struct {
+type zvStackHungryReader struct {
 	inner  io.Reader
 	hungry bool
 	used   bool
 }
 
 //go:noinline
-func burnStack(n int, acc *[64]byte) byte {
+func zvBurnStack(n int, acc *[64]byte) byte {
 	var local [64]byte
 	local[n%64] = acc[(n+1)%64] + 1
 	if n == 0 {
 		return local[0]
 	}
-	return burnStack(n-1, &local) + local[n%64]
+	return zvBurnStack(n-1, &local) + local[n%64]
 }
 
-func (s *stackHungryReader) Read(p []byte) (int, error) {
+func (s *zvStackHungryReader) Read(p []byte) (int, error) {
 	if s.hungry && !s.used {
 		s.used = true
 		var a [64]byte
-		burnStack(6000, &a) // about 1 MiB of frames
+		zvBurnStack(6000, &a) // about 1 MiB of frames
 	}
 	return s.inner.Read(p)
 }
@@ -480,18 +482,18 @@ func (s *stackHungryReader) Read(p []byte) (int, error) {
 // `chunk` bytes per Read) and reports the count, while the caller is parked. From the second request on the worker first
 // runs a garbage collection: a parked goroutine with a large, mostly unused stack has its stack shrunk (moved) then, and a
 // buffer whose address was hidden from the runtime is left behind in the old copy.
-type handoffReader struct {
+type zvHandoffReader struct {
 	req  chan []byte
-	done chan handoffRes
+	done chan zvHandoffRes
 }
 
-type handoffRes struct {
+type zvHandoffRes struct {
 	n   int
 	err error
 }
 
-func newHandoffReader(inner io.Reader, chunk int) *handoffReader {
-	h := &handoffReader{req: make(chan []byte), done: make(chan handoffRes)}
+func zvNewHandoffReader(inner io.Reader, chunk int) *zvHandoffReader {
+	h := &zvHandoffReader{req: make(chan []byte), done: make(chan zvHandoffRes)}
 	go func() {
 		reqs := 0
 		for p := range h.req {
@@ -503,27 +505,27 @@ func newHandoffReader(inner io.Reader, chunk int) *handoffReader {
 				p = p[:chunk]
 			}
 			n, err := inner.Read(p)
-			h.done <- handoffRes{n, err}
+			h.done <- zvHandoffRes{n, err}
 		}
 	}()
 	return h
 }
 
-func (h *handoffReader) Read(p []byte) (int, error) {
+func (h *zvHandoffReader) Read(p []byte) (int, error) {
 	h.req <- p
 	r := <-h.done
 	return r.n, r.err
 }
 
-func (h *handoffReader) Close() { close(h.req) }
+func (h *zvHandoffReader) Close() { close(h.req) }
 
 // afterLargeStack runs f in a fresh goroutine that first used (and left) about `frames` x 100 bytes of stack
-func afterLargeStack(frames int, f func()) {
+func zvAfterLargeStack(frames int, f func()) {
 	done := make(chan struct{})
 	go func() {
 		defer close(done)
 		var a [64]byte
-		burnStack(frames, &a)
+		zvBurnStack(frames, &a)
 		f()
 	}()
 	<-done
